@@ -367,13 +367,27 @@ def guarded(fn, *a, **kw):
 
 def workload(tier, rng, shard, nshards, work):
     with contextlib.redirect_stdout(io.StringIO()):
-        _workload(tier, rng, shard, nshards)
+        _workload(tier, rng, shard, nshards, work)
 
 
-def _workload(tier, rng, shard, nshards):
+def _workload(tier, rng, shard, nshards, work=None):
     from praatio import praatio_scripts
     from praatio.data_classes.textgrid import Textgrid
 
+    # a few seconds of audio whose only crossing (if any) lies thousands of search steps away from the target
+    from praatio import audio
+
+    for far in range(2 if tier == "quick" else 6):
+        width, rate, n = rng.choice((2, 4)), 1000, rng.randrange(2500, 4000)
+        samples = [rng.randrange(1, 2000) for _ in range(n)]
+        if far % 2:
+            x = rng.randrange(n - 300, n - 5)
+            samples[x:] = [-v for v in samples[x:]]  # one crossing near the end
+        wav = audio.Wav(W.encode(samples, width), [1, width, rate, n, "NONE", "not compressed"])
+        wav._vmon_wave = "long-same-sign" if not far % 2 else "long-single-far-crossing"
+        REC.cls("C18:crossing-thousands-of-steps-away")
+        guarded(wav.findNearestZeroCrossing, rng.randrange(0, 200) / rate, 0.002)
+        guarded(wav.findNearestZeroCrossing, rng.randrange(0, 200) / rate)
     nw = (900 if tier == "quick" else 30000) // nshards
     for k in range(nw):
         wav, samples, rate, n = mk_wav(rng, WAVEFORMS[k % len(WAVEFORMS)])
@@ -430,13 +444,73 @@ def _workload(tier, rng, shard, nshards):
             stop = min(dur, start + rng.randrange(1, 30) / rate)
             if not stop > start:
                 stop = None
-        guarded(praatio_scripts.audioSplice, wav.new(), seg, tg, "words", "SPLICE", start, stop, rng.random() < 0.5)
+        target = wav.new()
+        if work is not None and k % 5 == 2:
+            # one of the two recordings comes from a file (Wav.open), the other was built in memory
+            import os
+
+            fnw = os.path.join(str(work), "splice_part.wav")
+            if k % 2:
+                seg.save(fnw)
+                seg = audio.Wav.open(fnw)
+            else:
+                target.save(fnw)
+                target = audio.Wav.open(fnw)
+            REC.cls("C18:splice:file-and-memory-recordings")
+            # where a recording comes from does not matter: the same splice with both recordings built in memory must end the same way
+            align = rng.random() < 0.5
+            mem_t = audio.Wav(bytes(target.frames), [1, target.sampleWidth, target.frameRate, len(target.frames) // target.sampleWidth, "NONE", "not compressed"])
+            mem_s = audio.Wav(bytes(seg.frames), [1, seg.sampleWidth, seg.frameRate, len(seg.frames) // seg.sampleWidth, "NONE", "not compressed"])
+            outs = []
+            for a_, s_ in ((mem_t, mem_s), (target, seg)):
+                try:
+                    with core.paused():
+                        o = praatio_scripts.audioSplice(a_, s_, tg.new(), "words", "SPLICE", start, stop, align)
+                    outs.append(("returned", bytes(o[0].frames), snap.tg_snap(o[1])))
+                except Exception as e:
+                    outs.append(("raised", type(e).__name__, None))
+            if outs[0] != outs[1]:
+                REC.violation(PROP, "splice", "audioSplice", {"call": "splice-origin", "width": target.sampleWidth, "rate": target.frameRate, "samples": W.decode(bytes(mem_t.frames), target.sampleWidth),
+                                                                "seg": W.decode(bytes(mem_s.frames), seg.sampleWidth), "tg": snap.tg_snap(tg), "start": start, "stop": stop, "align": align, "file_is_segment": bool(k % 2)},
+                              "the same splice %s with both recordings built in memory but %s when one of them was opened from a file" % (
+                                  outs[0][0] + (" " + outs[0][1] if outs[0][0] == "raised" else ""), outs[1][0] + (" " + outs[1][1] if outs[1][0] == "raised" else " something else")),
+                              ("splice-origin",), {"op": "splice-origin"})
+            else:
+                REC.held("splice", ("splice-origin", outs[0][0]), None, None)
+        guarded(praatio_scripts.audioSplice, target, seg, tg, "words", "SPLICE", start, stop, rng.random() < 0.5)
 
 
 def replay(v, work):
     from praatio import audio, praatio_scripts
 
     c = v["case"]
+    if c["call"] == "splice-origin":
+        import os
+
+        with contextlib.redirect_stdout(io.StringIO()):
+            mk = lambda smp: audio.Wav(W.encode(smp, c["width"]), [1, c["width"], c["rate"], len(smp), "NONE", "not compressed"])
+            outs = []
+            for from_file in (False, True):
+                a_, s_ = mk(c["samples"]), mk(c["seg"])
+                if from_file:
+                    fnw = os.path.join(str(work), "splice_part.wav")
+                    if c["file_is_segment"]:
+                        s_.save(fnw)
+                        s_ = audio.Wav.open(fnw)
+                    else:
+                        a_.save(fnw)
+                        a_ = audio.Wav.open(fnw)
+                try:
+                    with core.paused():
+                        o = praatio_scripts.audioSplice(a_, s_, snap.build_tg(c["tg"]), "words", "SPLICE", c["start"], c["stop"], c["align"])
+                    outs.append(("returned", bytes(o[0].frames), snap.tg_snap(o[1])))
+                except Exception as e:
+                    outs.append(("raised", type(e).__name__, None))
+            if outs[0] != outs[1]:
+                REC.violation(PROP, "splice", "audioSplice", c, "the same splice ends differently when one recording was opened from a file (%s vs %s)" % (outs[0][:2] if outs[0][0] == "raised" else "returned", outs[1][:2] if outs[1][0] == "raised" else "returned"), ("splice-origin",), {"op": "splice-origin"})
+            else:
+                REC.held("splice", ("splice-origin",), None, None)
+        return
     with contextlib.redirect_stdout(io.StringIO()):
         if c["call"] == "zc":
             h = c.get("history")
